@@ -150,10 +150,53 @@ def run(ctx):
                     if got != spec.K2[(r1, r2)]:
                         ctx.violation("derived L2 key differs from the MS-GKDI chain (real HMAC)", {"hash": hn, "envelope": [a, b], "request": [r1, r2]}, hx(got)[:32], hx(spec.K2[(r1, r2)])[:32])
     ctx.count("real_hmac_cases", n_real)
+    through_cache(ctx, g, hashes)
 
     # ---- thorough: the entire lattice against the spec chain (fast KDF), step counts against the model
     if ctx.thorough:
         lattice(ctx, g, hashes, sd, root, l0)
+
+
+def through_cache(ctx, g, hashes):
+    """the seed material as the KeyCache hands it out after real API calls: load a root key, protect at interval ends, then derive
+    L2 keys for several positions through KeyCache._get_key + compute_l2_key and compare with the independent chain (real HMAC)"""
+    import dpapi_ng, dpapi_ng._client as c
+    from dpapi_ng._blob import ProtectionDescriptor
+    sid = "S-1-5-21-1-2-3-1103"
+    sd = ProtectionDescriptor.parse(sid).get_target_sd()
+    root = bytes(range(64))
+    for (n1, n2) in ((31, 31), (31, 30), (17, 31), (17, 13), (0, 0)):
+        for hn, h in (("sha512", hashes.SHA512()), ("sha256", hashes.SHA256())):
+            now_ns = (((361 * 32 + n1) * 32 + n2) * 360000000000 + 5 - 116444736000000000) * 100
+
+            class T:
+                @staticmethod
+                def time_ns():
+                    return now_ns
+            old = c.time
+            c.time = T
+            try:
+                cache = dpapi_ng.KeyCache()
+                cache.load_key(root, root_key_id=RK, kdf_parameters=g.KDFParameters(hn.upper()).pack())
+                with toycrypto.recording() as rlog:
+                    dpapi_ng.ncrypt_protect_secret(b"x", sid, root_key_identifier=RK, cache=cache)
+                    spec = SpecChain(lambda k, cc, hn=hn: kbkdf_hmac(hn, k, LABEL, cc, 64), root, sd, 361)
+                    for (r1, r2) in ((n1, n2), (n1, 0), (17, 13), (0, 0), (max(n1 - 1, 0), 31)):
+                        if (r1, r2) > (n1, n2):
+                            continue
+                        rlog.reset_budget()
+                        try:
+                            env = cache._get_key(sd, RK, 361, r1, r2)
+                            got = g.compute_l2_key(h, r1, r2, env)
+                        except Exception as e:  # noqa
+                            got = ("raised " + type(e).__name__).encode()
+                        ctx.count("through_cache_after_protect")
+                        if got != spec.K2[(r1, r2)]:
+                            ctx.violation("after a protect call the cache hands out seed material from which the wrong key derives",
+                                          {"hash": hn, "protect_at": [361, n1, n2], "request": [r1, r2], "scenario": "through_cache"}, hx(got)[:32], hx(spec.K2[(r1, r2)])[:32])
+                            return
+            finally:
+                c.time = old
 
 
 def lattice(ctx, g, hashes, sd, root, l0):
@@ -222,6 +265,12 @@ def replay(ctx, payload):
     import dpapi_ng._gkdi as g
     from cryptography.hazmat.primitives import hashes
     v = payload["violation"]["input"]
+    if v.get("scenario") == "through_cache":
+        c2 = type(ctx)(ctx.prop, "quick", ctx.seed)
+        through_cache(c2, g, hashes)
+        for x in c2.violations:
+            print(" ", x["what"], x["input"], x["observed"])
+        return not c2.violations
     a, b = v["envelope"]
     r1, r2 = v["request"]
     root, sd, l0 = bytes(range(64)), b"\x01\x02\x03", 361
